@@ -46,7 +46,7 @@ Params == {"P_bfield", "P_edist", "P_comp", "P_adata", "P_geom", "P_geomT", "P_i
            "B_plasma", "L_plasma"}
 \* re-pointing beam / laser at the plasma they already reference: a public assignment that re-subscribes and reconfigures
 Repoint == {"B_plasma", "L_plasma"}
-Values(p) == IF p \in ModelParams THEN 1..3 ELSE IF p \in Repoint THEN {1} ELSE 1..2      \* model lists: two different lists and the empty list (3)
+Values(p) == IF p \in ModelParams \cup {"P_comp"} THEN 1..3 ELSE IF p \in Repoint THEN {1} ELSE 1..2      \* model lists and the composition: two different lists and the empty list (3)
 
 
 Caches == {"pm", "pmat", "att", "bm", "bgeom", "lseg", "lmat"}
@@ -167,6 +167,8 @@ Log(e) == hist' = Append(hist, e)
 \* (Laser.models hands out a copy of its list: assignment is its only front-end)
 Vias(p) == IF p \in {"P_models", "B_models"} THEN {"assign", "set", "clear_add"}
            ELSE IF p = "P_comp" THEN {"set", "clear_add", "add"} ELSE {"assign"}
+\* (adding the species of the empty composition one by one adds nothing: not a way to reach it)
+ViaOK(p, v, via) == ~(p = "P_comp" /\ v = 3 /\ via = "add")
 NoOpWhenSame == {"P_parent", "B_parent"}
 IsNoOp(p, v) == p \in NoOpWhenSame /\ cfg[p] = v
 SetCore(p, v) ==
@@ -195,7 +197,7 @@ Observe(k) ==
     /\ ObserveCore(k)
     /\ Log([E0 EXCEPT !.op = "observe", !.k = k])
 
-NextStep == \/ \E p \in MutParams : \E v \in Values(p) : \E via \in Vias(p) : Set(p, v, via)
+NextStep == \/ \E p \in MutParams : \E v \in Values(p) : \E via \in Vias(p) : ViaOK(p, v, via) /\ Set(p, v, via)
             \/ \E k \in ObsKinds : Observe(k)
 Next == Len(hist) <= MaxHist /\ NextStep
 Spec == Init /\ [][Next]_vars
